@@ -1099,6 +1099,7 @@ class SyncInterpreter(BaseInterpreter[TContext, TEvent]):
         action_def: ActionDefinition,
         event: Event,
         on_complete: Optional[str] = None,
+        activation: Optional[int] = None,
     ) -> None:
         """Spawns a child state machine actor in blocking or non-blocking mode.
 
@@ -1160,7 +1161,7 @@ class SyncInterpreter(BaseInterpreter[TContext, TEvent]):
         if blocking:
             child.start()
             if on_complete is not None:
-                self._queue_actor_done(child, on_complete)
+                self._queue_actor_done(child, on_complete, activation)
             return
 
         # --- Non-Blocking Execution Path (via a background thread) ---
@@ -1181,7 +1182,7 @@ class SyncInterpreter(BaseInterpreter[TContext, TEvent]):
             finally:
                 # 🧹 Ensure cleanup happens whether the child finishes or is stopped.
                 if on_complete is not None:
-                    self._queue_actor_done(child, on_complete)
+                    self._queue_actor_done(child, on_complete, activation)
                 child.stop()
                 self._actors.pop(actor_id, None)
                 logger.info("🧹 Actor thread for '%s' cleaned up.", actor_id)
@@ -1192,7 +1193,10 @@ class SyncInterpreter(BaseInterpreter[TContext, TEvent]):
         ).start()
 
     def _queue_actor_done(
-        self, child: "SyncInterpreter", invoke_id: str
+        self,
+        child: "SyncInterpreter",
+        invoke_id: str,
+        activation: Optional[int] = None,
     ) -> None:
         """Queues `done.invoke.<id>` for a completed child machine.
 
@@ -1219,6 +1223,7 @@ class SyncInterpreter(BaseInterpreter[TContext, TEvent]):
             type=f"done.invoke.{invoke_id}",
             data=child.context,
             src=invoke_id,
+            activation=activation,
         )
         logger.info("🏁 Child actor '%s' completed; firing onDone.", child.id)
         self.send(done_event)
@@ -1351,6 +1356,12 @@ class SyncInterpreter(BaseInterpreter[TContext, TEvent]):
         Raises:
             NotSupportedError: If the provided service is an `async def` function.
         """
+        # 🔢 The activation this invocation belongs to (see
+        #    `BaseInterpreter._schedule_state_tasks`).
+        activation = self._invoke_activations.get(
+            f"{owner_id}::{invocation.id}"
+        )
+
         # 🤖 A `MachineNode` used as `src` means "run this machine as a child
         #    actor", not "call this object". Without this branch it fell
         #    through to `service(...)` and raised
@@ -1370,6 +1381,7 @@ class SyncInterpreter(BaseInterpreter[TContext, TEvent]):
                 ),
                 Event(type=f"invoke.{invocation.id}"),
                 on_complete=invocation.id,
+                activation=activation,
             )
             return
 
@@ -1400,7 +1412,10 @@ class SyncInterpreter(BaseInterpreter[TContext, TEvent]):
             result = service(self, self.context, invoke_event)
             # ✅ On success, immediately queue a 'done' event with the result.
             done_event = DoneEvent(
-                f"done.invoke.{invocation.id}", data=result, src=invocation.id
+                f"done.invoke.{invocation.id}",
+                data=result,
+                src=invocation.id,
+                activation=activation,
             )
             self.send(done_event)
             logger.info(
@@ -1418,7 +1433,10 @@ class SyncInterpreter(BaseInterpreter[TContext, TEvent]):
                 exc_info=True,
             )
             error_event = DoneEvent(
-                f"error.platform.{invocation.id}", data=e, src=invocation.id
+                f"error.platform.{invocation.id}",
+                data=e,
+                src=invocation.id,
+                activation=activation,
             )
             # 🚨 Unhandled service failures must be observable, not just
             #    logged. See BaseInterpreter._fail.
